@@ -9,7 +9,7 @@ from typing import Any, Dict, List, Optional, Tuple
 
 from . import matrix
 from .grammar import Grammar, grammar
-from .model import AnchorMissing, Repo, class_methods, dotted, strip_cast
+from .model import AnchorMissing, Repo, class_methods, class_methods_n, dotted, strip_cast
 
 # token text -> what base_functions must resolve to
 EXPECTED_BINARY = {
@@ -91,7 +91,7 @@ def check_chains(repo: Repo, run: Any, rule: str, levels: List[str], engines: Tu
         if level in EXPECTED_FIXED:
             tok, want = EXPECTED_FIXED[level]
             for cls in engines:
-                meths = class_methods(ev.cls(cls))
+                meths = class_methods_n(ev.cls(cls))
                 fn = meths.get(level)
                 if fn is None:
                     raise AnchorMissing(f"{cls}.{level}")
@@ -107,7 +107,7 @@ def check_chains(repo: Repo, run: Any, rule: str, levels: List[str], engines: Tu
             raise AnchorMissing(f"grammar level {level} has no operator helper rules")
         expected = EXPECTED_UNARY if level == "unary" else EXPECTED_BINARY
         for cls in engines:
-            meths = class_methods(ev.cls(cls))
+            meths = class_methods_n(ev.cls(cls))
             fn = meths.get(level)
             if fn is None:
                 raise AnchorMissing(f"{cls}.{level}")
